@@ -420,6 +420,50 @@ func ruleLookback(p *core.Program) []core.Obligation {
 	return obs
 }
 
+// callbackCall: the closure fn is made in its parent and handed, as an argument, to a function of the repository
+// that calls that parameter; returns that function and the call of the parameter (nil when there is not exactly one).
+func callbackCall(p *core.Program, fn *ssa.Function) (*ssa.Function, *ssa.Call) {
+	par := fn.Parent()
+	if par == nil {
+		return nil, nil
+	}
+	var h *ssa.Function
+	var c2 *ssa.Call
+	n := 0
+	core.EachInstr(par, func(_ *ssa.BasicBlock, _ int, ins ssa.Instruction) {
+		mc, ok := ins.(*ssa.MakeClosure)
+		if !ok || mc.Fn != fn {
+			return
+		}
+		for _, r := range core.Referrers(mc) {
+			c, ok := r.(*ssa.Call)
+			if !ok {
+				continue
+			}
+			callee := c.Call.StaticCallee()
+			if callee == nil || callee.Blocks == nil || !p.InRepo(callee) {
+				continue
+			}
+			for ai, a := range c.Call.Args {
+				if a != ssa.Value(mc) || ai >= len(callee.Params) {
+					continue
+				}
+				prm := callee.Params[ai]
+				core.EachInstr(callee, func(_ *ssa.BasicBlock, _ int, x ssa.Instruction) {
+					if cc, ok := x.(*ssa.Call); ok && cc.Call.Value == ssa.Value(prm) {
+						h, c2 = callee, cc
+						n++
+					}
+				})
+			}
+		}
+	})
+	if n != 1 {
+		return nil, nil
+	}
+	return h, c2
+}
+
 func ruleShard(p *core.Program) []core.Obligation {
 	const rule = "R-SHARD"
 	var obs []core.Obligation
@@ -439,6 +483,28 @@ func ruleShard(p *core.Program) []core.Obligation {
 			shard, num := call.Call.Args[n-2], call.Call.Args[n-1]
 			key := fmt.Sprintf("%s -> %s (shard, numShards)", core.FuncName(fn), callee.Name())
 			site := p.Pos(ins.Pos())
+			// the constructor call sits in a callback that is handed the shard and the count
+			// (newShardedOperator(func(shard, numShards int) model.VectorOperator { return scan.New...(.., shard, numShards) })):
+			// the loop is examined where the callback is called
+			if sp, ok1 := shard.(*ssa.Parameter); ok1 && fn.Parent() != nil {
+				if np, ok2 := num.(*ssa.Parameter); ok2 {
+					if h, c2 := callbackCall(p, fn); h != nil && c2 != nil {
+						si, ni := -1, -1
+						for pi, prm := range fn.Params {
+							if prm == sp {
+								si = pi
+							}
+							if prm == np {
+								ni = pi
+							}
+						}
+						if si >= 0 && ni >= 0 && si < len(c2.Call.Args) && ni < len(c2.Call.Args) {
+							fn, b, call = h, c2.Block(), c2
+							shard, num = c2.Call.Args[si], c2.Call.Args[ni]
+						}
+					}
+				}
+			}
 			if sc, ok := core.ConstInt(shard); ok {
 				nc, ok2 := core.ConstInt(num)
 				if ok2 && sc == 0 && nc == 1 {
@@ -717,6 +783,40 @@ func ruleAtOffset(p *core.Program) []core.Obligation {
 			key := fmt.Sprintf("%s -> %s offset", core.FuncName(fn), cc.StaticCallee().Name())
 			if _, isParam := arg.(*ssa.Parameter); isParam {
 				return // forwarded parameter: checked at the caller
+			}
+			// inside a callback: a captured variable stands for what the enclosing function bound to it
+			if fn.Parent() != nil {
+				fvv := arg
+				if u, ok := fvv.(*ssa.UnOp); ok && u.Op == token.MUL {
+					fvv = u.X
+				}
+				if fv, ok := fvv.(*ssa.FreeVar); ok {
+					var bound ssa.Value
+					core.EachInstr(fn.Parent(), func(_ *ssa.BasicBlock, _ int, x ssa.Instruction) {
+						if mc, ok := x.(*ssa.MakeClosure); ok && mc.Fn == fn {
+							for bi, fvx := range fn.FreeVars {
+								if fvx == fv && bi < len(mc.Bindings) {
+									bound = mc.Bindings[bi]
+								}
+							}
+						}
+					})
+					if _, isParam := bound.(*ssa.Parameter); isParam {
+						return // the enclosing function's forwarded parameter
+					}
+					if al, ok := bound.(*ssa.Alloc); ok {
+						for _, r := range core.Referrers(al) {
+							if st, ok := r.(*ssa.Store); ok && st.Addr == ssa.Value(al) {
+								if _, isParam := st.Val.(*ssa.Parameter); isParam {
+									return
+								}
+								arg = st.Val
+							}
+						}
+					} else if bound != nil {
+						arg = bound
+					}
+				}
 			}
 			var fields []string
 			core.BackSlice(arg, func(x ssa.Value) bool {
